@@ -126,7 +126,7 @@ def gen_order_op(r: random.Random, w: World, acc: List[str], p_market: float, p_
     if r.random() < p_ttl:
         op["ttl"] = r.choice(ttls)
     if r.random() < 0.04:
-        op["typ"] = r.choice(["np", "fl", "fr", "dc", "pk"])
+        op["typ"] = r.choice(["np", "fl", "fr", "dc", "pk", "ip"])
     return op
 
 
